@@ -1,4 +1,5 @@
 // Included by hook H3 inside `crate::protocol::context` (access to Batcher).
+#[cfg(descriptive_gate)]
 pub(crate) mod c16 {
     include!(concat!(env!("IPA_VERIF_DIR"), "/harness/c16.rs"));
 }
